@@ -235,7 +235,7 @@ Section Classic.
       constructor; prj; rewrite ?length_upd.
       + exact Hle.
       + rdc. exact Hsp.
-      + rdc. rewrite Hown, Nat.eqb_refl. simpl. apply Nat.ltb_lt. lia.
+      + rdc. rewrite Hown. reflexivity.
       + rdc. exact Hns.
       + exact Hsw.
       + rdc. exact Htid.
@@ -827,6 +827,83 @@ Section Classic.
     - exact H1.
     - pose proof cinit_measure. lia.
   Qed.
+  (* ---- who was alive when run() ended had not been joined ---- *)
+  Definition CLInv (c : cconf) : Prop :=
+    k_main c = CMDone -> forall w b, nth_error (k_live c) w = Some b -> In w (joins (k_log c)) -> b = false.
+
+  Lemma cabort_live c : k_main (cabort c) = CMDone ->
+    k_live (cabort c) = map (fun w => negb (cw_done w)) (k_workers (cabort c)).
+  Proof. unfold cabort. destruct (k_unreaped c); [reflexivity | discriminate]. Qed.
+
+  Lemma cafter_spawn_live c k : k_main (cafter_spawn i c k) = CMDone ->
+    k_live (cafter_spawn i c k) = map (fun w => negb (cw_done w)) (k_workers (cafter_spawn i c k)).
+  Proof.
+    unfold cafter_spawn. destruct (option_eqb Nat.eqb mt (Some k)); [apply cabort_live|].
+    destruct (k <? length (ci_suites i)); [discriminate|]. destruct (k_unreaped c); [reflexivity | discriminate].
+  Qed.
+
+  Lemma cafter_spawn_log c k : k_log (cafter_spawn i c k) = k_log c.
+  Proof.
+    unfold cafter_spawn, cabort. destruct (option_eqb Nat.eqb mt (Some k)); [destruct (k_unreaped c); reflexivity|].
+    destruct (k <? length (ci_suites i)); [reflexivity|]. destruct (k_unreaped c); reflexivity.
+  Qed.
+
+  Lemma cstep_live c t c' : cstep i c t = Some c' ->
+    (k_main c = CMDone /\ k_main c' = CMDone /\ k_live c' = k_live c /\ joins (k_log c') = joins (k_log c))
+    \/ (k_main c <> CMDone /\ (k_main c' = CMDone -> k_live c' = map (fun w => negb (cw_done w)) (k_workers c'))).
+  Proof.
+    destruct t as [|w]; simpl.
+    - unfold cstep_main. destruct (k_main c) as [k| |w|ws|ws|ws b|] eqn:Em; cbv zeta; intro H.
+      + right; split; [discriminate|].
+        destruct (nth_error (ci_suites i) k) as [[s fl]|]; [|discriminate]. injection H as <-. apply cafter_spawn_live.
+      + right; split; [discriminate|]. destruct (option_eqb Nat.eqb (ci_get_intr i) (Some (k_gets c))).
+        * injection H as <-. apply cabort_live.
+        * destruct (k_queue c); [discriminate|]. injection H as <-. discriminate.
+      + right; split; [discriminate|]. destruct (nth_error (k_workers c) w) as [wk|]; [|discriminate].
+        destruct (cw_done wk); [|discriminate]. injection H as <-. prj.
+        destruct (remove_nat w (k_unreaped c)); [reflexivity | discriminate].
+      + right; split; [discriminate|]. destruct (k_sem c); [discriminate|]. destruct ws; [discriminate|].
+        injection H as <-. discriminate.
+      + right; split; [discriminate|]. injection H as <-. discriminate.
+      + right; split; [discriminate|]. injection H as <-. destruct b; [reflexivity|].
+        destruct ws as [|x [|y l]]; try reflexivity. discriminate.
+      + discriminate.
+    - intro H. destruct (cstep_worker_frame c w c' H) as (F1 & _ & _ & F4 & _ & _ & _ & _ & _ & _ & F11 & _).
+      destruct (k_main c) eqn:Em.
+      all: try (right; split; [discriminate | rewrite F1; discriminate]).
+      left. repeat split; assumption.
+  Qed.
+
+  Lemma clinv_step c t c' : CInv c -> CLInv c -> cstep i c t = Some c' -> CLInv c'.
+  Proof.
+    intros HI HL Hs. pose proof (cstep_inv c t c' HI Hs) as HI'.
+    destruct (cstep_live c t c' Hs) as [(Hd & Hd' & El & Ej)|(Hnd & Hlive)].
+    - intros _ w b Hn Hin. rewrite El in Hn. rewrite Ej in Hin. apply (HL Hd w b Hn Hin).
+    - intros Hd w b Hn Hin. rewrite (Hlive Hd) in Hn.
+      apply nth_error_map_inv in Hn as (wk & Hn & ->).
+      pose proof (cv_joins c' HI') as Hjo. unfold cpend_join in Hjo. rewrite Hd, app_nil_r in Hjo.
+      pose proof (cv_base c' HI') as HB'.
+      rewrite (token_put c' w wk HB' Hn); [reflexivity|].
+      rewrite <- (cb_fifo c' HB'). apply in_or_app. left. rewrite <- Hjo. apply in_map. exact Hin.
+  Qed.
+
+  Lemma cinit_linv : CLInv (cinit i).
+  Proof. unfold CLInv, cinit. rewrite cafter_spawn_log. simpl. intros _ w b _ H. contradiction. Qed.
+
+  Definition CInv2 (c : cconf) : Prop := CInv c /\ CLInv c.
+
+  Lemma crun_inv2 : CInv2 (crun i) /\ call_done (crun i) = true.
+  Proof.
+    unfold crun.
+    assert (St : forall c t c', CInv2 c -> cstep i c t = Some c' -> CInv2 c').
+    { intros c t c' [H1 H2] Hs. split; [eapply cstep_inv; eauto | eapply clinv_step; eauto]. }
+    destruct (gfold_P (cstep i) cnthr CInv2 cmeas St (fun c t c' _ H => cstep_measure c t c' H)
+                (ci_sched i) (cinit i) (conj cinit_inv cinit_linv)) as [H1 H2].
+    apply (gdrain_done (cstep i) cnthr CInv2 cmeas call_done St (fun c t c' _ H => cstep_measure c t c' H)
+             (fun c H => clive c (proj1 H))).
+    - exact H1.
+    - pose proof cinit_measure. lia.
+  Qed.
 End Classic.
 
 (* ====================================================================================== *)
@@ -1099,7 +1176,7 @@ Qed.
 
 Theorem classic_meets_spec : forall i, spec_okb (IClassic i) (model (IClassic i)) = true.
 Proof.
-  intro i. destruct (crun_inv i) as [HI Hd]. unfold spec_okb, model. set (c := crun i) in *.
+  intro i. destruct (crun_inv2 i) as [[HI HLv] Hd]. unfold spec_okb, model. set (c := crun i) in *.
   pose proof (done_sem_free i c HI Hd) as Hsem.
   pose proof HI as [HB H0 Hj Hp Hr]. pose proof HB as [Hle Hsp Hown Hns Hsw Htid Hthr Hmon Hfifo Hqo].
   pose proof Hd as Hd'. unfold call_done in Hd'. apply andb_true_iff in Hd' as [Hmd Hwd].
@@ -1119,7 +1196,13 @@ Proof.
       apply andb_true_iff. split.
       * apply forallb_firstn. apply unreaped_lt.
       * destruct (existsb (fun b : bool => b) (main_stops (k_log c))) eqn:Ee; [reflexivity|].
-        rewrite (stop_count_none _ _ Ee), firstn_all. apply forallb_memb_self.
+        rewrite (stop_count_none _ _ Ee), firstn_all. simpl.
+        apply forallb_idx_spec. intros w b Hn. simpl. destruct b; [|reflexivity]. simpl.
+        assert (HwK' : w < K) by (rewrite <- Hlive; apply nth_error_Some; congruence).
+        apply existsb_exists. exists w. split; [|apply Nat.eqb_refl].
+        unfold unreaped_of. apply filter_In. split; [apply in_seq; lia|].
+        destruct (memb w (joins (k_log c))) eqn:Em'; [|reflexivity]. exfalso.
+        apply memb_In in Em'. specialize (HLv Em w true Hn Em'). discriminate.
     + destruct Hstops as [-> ->]. reflexivity.
   - rewrite Hsem. reflexivity.
   - apply mon_sectb. fold n. fold K. rewrite Hmon, Hsem. reflexivity.
